@@ -49,6 +49,32 @@ def check(kind):
     return f
 
 
+def check_fidelity(I):
+    """fidelity(other, mode) of the Fock representation against the overlap with the reduced density matrix of the SAME
+    mode computed from the Gaussian representation (asymmetric, correlated state: every mode differs)"""
+    import strawberryfields as sf
+    n, mode, pure = int(I.get("n", 3)), int(I.get("mode", 0)), bool(int(I.get("pure", 1)))
+    if n > 3 or mode >= n:
+        return None
+    cut = 8 if n < 3 else 7
+    g = sf.Engine("gaussian").run(_prog(n, pure)).state
+    st = sf.Engine("fock", backend_options={"cutoff_dim": cut}).run(_prog(n, pure)).state
+    rng = np.random.RandomState(1)
+    other = rng.randn(cut) + 1j * rng.randn(cut)
+    other[4:] = 0
+    other /= np.linalg.norm(other)
+    got = st.fidelity(other, mode)
+    want = (other.conj() @ g.reduced_dm([mode], cutoff=cut) @ other).real
+    if abs(got - want) > 2e-2:
+        return f"fock fidelity(other, mode={mode}) of a {n}-mode state (pure={pure}) = {got:.4f}; <other| rho_{mode} |other> = {want:.4f}"
+    return None
+
+
+def replay_fidelity(obligation, I):
+    from native.common import run_replay
+    run_replay(obligation, I, check_fidelity, [dict(n=n, mode=m, pure=p) for n in (2, 3) for m in range(n) for p in (1, 0)])
+
+
 def replay(kind, obligation, I):
     from native.common import run_replay
     from native.c16_cases import SUBSETS, ORDERED
